@@ -276,8 +276,12 @@ impl GcVector {
         Self(Gc::new(GcCell::new(Vec::with_capacity(capacity))))
     }
 
-    pub fn addr(&self) -> *const Primitive {
-        self.0.borrow().as_ptr()
+    /// The identity of this list: the address of the shared `Vec`, not of its element buffer - every
+    /// `Vec` that has not allocated yet reports the same dangling buffer address, which made two
+    /// distinct empty lists `is`-identical.
+    pub fn addr(&self) -> *const Vec<Primitive> {
+        let view = self.0.borrow();
+        &*view as *const _
     }
 }
 
